@@ -8,6 +8,8 @@ CONSTANTS
   MaxWrite = 1
   Validates = {FALSE}
   SetClass = "all"
+  MaxEdit = 0
+  MaxAssign = 0
   UpdEnabled = {FALSE}
   Deviations = {"EmptyStrAsNone", "InfTextAsFloat", "UuidTextAsId", "NoneMemberAsText", "IsValueFlipOnNone", "FileFormRejectsWorkspace", "GroupPropagation"}
 VIEW vw
